@@ -19,7 +19,8 @@
 (***************************************************************************)
 EXTENDS Integers, Sequences, TLC
 
-CONSTANTS Sources,   \* set of [origin : {"lib", "foreign"}, store : {"simple", "multi"}]
+CONSTANTS Sources,   \* set of [origin : {"lib", "foreign"}, store : {"simple", "multi", "nested"}]
+                     \* nested = two multi-file datasets with their own _metadata, opened / merged as one
           MaxOps
 
 VARIABLES src, store, derived, rgs, prog, hist,
@@ -42,7 +43,7 @@ AfterUpdate(s, n) == LET u == Upd(s, n) IN
                      (IF HasKey(s, "solo") THEN u ELSE Append(u, <<"solo", "S" \o n>>)) \o << <<"new" \o n, "v">> >>
 
 Init == /\ src \in Sources /\ store = src.store /\ derived = FALSE
-        /\ rgs = <<3, 3>> /\ prog = <<>> /\ hist = <<>>
+        /\ rgs = (IF src.store = "nested" THEN <<3, 3, 3, 3>> ELSE <<3, 3>>) /\ prog = <<>> /\ hist = <<>>
         /\ kv = (IF src.origin = "foreign" /\ src.store = "simple" THEN ForeignKv ELSE LibKv) /\ kvhist = <<>>
 
 Step(op, newstore, newderived, newrgs) ==
@@ -57,13 +58,13 @@ Slice == Len(rgs) >= 2 /\ Step("slice", store, TRUE, <<Head(rgs)>>)
 (* pickle round trip of the handle (serialises the metadata inside __getstate__) *)
 Pickle == Step("pickle", store, derived, rgs)
 (* write(path, frame, append=True): re-serialises the existing metadata plus one row group of 2 rows *)
-AppendRows == ~derived /\ Step("append", store, FALSE, Append(rgs, 2))
+AppendRows == ~derived /\ store # "nested" /\ Step("append", store, FALSE, Append(rgs, 2))
 (* update_file_custom_metadata on a single file: footer rewritten in place *)
 KvUpdate == ~derived /\ store = "simple" /\ Step("kvupdate", store, FALSE, rgs)
 (* remove_row_groups of the first row group's file: _metadata rewritten *)
 Remove == ~derived /\ store = "multi" /\ Len(rgs) >= 2 /\ Step("remove", store, FALSE, Tail(rgs))
 (* merge of the part files: _metadata written from the parts' footers *)
-Merge == ~derived /\ store = "multi" /\ Step("merge", store, FALSE, rgs)
+Merge == ~derived /\ store \in {"multi", "nested"} /\ Step("merge", store, FALSE, rgs)      \* nested: merge of the two sub-datasets' summaries
 (* write_common_metadata(fn, handle.fmd): schema-only copy of whatever the handle holds *)
 Common == Step("common", store, derived, rgs)
 
